@@ -28,7 +28,7 @@ RULE = (
 )
 ASSUMPTIONS = ["packaging.version 26.3 implements PEP 440 ordering and normalisation (reference)"]
 
-RELEASES = ["0", "1", "1.0", "1.0.0", "1.1", "1.10", "01.2", "2", "2020.1001", "201811.0007"]
+RELEASES = ["0", "0.0", "0.0.0", "1", "1.0", "1.0.0", "1.1", "1.10", "01.2", "2", "2020.1001", "201811.0007"]  # (all-zero releases of three lengths are equal)
 NUMS = ("", "0", "1", "01", "10")  # number absent / zero / one / leading zero / two digits
 PRE_FULL = (
     [l + n for l in ("a", "b", "c", "rc", "alpha", "beta", "pre", "preview") for n in NUMS]
